@@ -237,11 +237,14 @@ def _units_and_support(db, rep):
                 r6.ok(inst, 'byte quantities only', f.loc(c))
     if n_sites == 0:
         r6.broken('no byte-level string edit found in cclLang (anchor vanished)')
+    r8 = rep.rule('r8', 'TRANSLATE-ONCE: a copied constituent has the names in its texts rewritten exactly once by the complete old->new map (a single-item inserter already renames the copy\'s own alias; a later complete translation requires every text to be stored again from the source)', 4)
+    from rules.shared_translate_once import translate_once_rule
+    translate_once_rule(db, r8)
     r7 = rep.rule('r7', 'SUPPORT (shared with C07 r1, C12 r5): translation refreshes graph and analysis of every rewritten constituent; a merge translates copies only with the complete alias map', 10)
     from rules import C07, C12
     from engine.modset import ModSets
     C07.refresh_rule(db, rep, r7, ModSets(db), ((C07.SCHEMA, C07._classify_schema, C07._families_schema),))
-    C12._merge_rule(db, r7, db.fn(S + 'rsOperationFacet::MergeWith'))
+    C12.merge_evaluated(db, r7)
 
 
 def _codepoint_source(f, n, depth):
